@@ -37,4 +37,165 @@ theorem entry_map_map {α β : Type} (M : List (List α)) (f : α → β) (i j :
   unfold entry
   cases h : M[i]? <;> simp [h]
 
+
+
+theorem entry_zipIdx_map {α β : Type} (M : List (List α)) (f : α → Nat → Nat → β) (i j : Nat) :
+    entry ((M.zipIdx).map fun (row, i) => (row.zipIdx).map fun (b, j) => f b i j) i j
+      = (entry M i j).map fun b => f b i j := by
+  unfold entry
+  cases h : M[i]? with
+  | none => simp [h]
+  | some row =>
+    simp [h]
+    cases h2 : row[j]? <;> simp [h2]
+
+theorem applyMask_entry (R : List (List Bool)) (M : List Bool) (i j : Nat) :
+    entry (applyMask R M) i j
+      = (entry R i j).map fun b => b && !(M.getD i false) && !(M.getD j false) := by
+  unfold applyMask
+  exact entry_zipIdx_map R (fun b i j => b && !(M.getD i false) && !(M.getD j false)) i j
+
+theorem zeroStride_entry (R : List (List Bool)) (stride i j : Nat) :
+    entry (zeroStride R stride) i j
+      = (entry R i j).map fun b => b && !((i * R.length + j) % stride == 0) := by
+  unfold zeroStride
+  exact entry_zipIdx_map R (fun b i j => b && !((i * R.length + j) % stride == 0)) i j
+
+theorem diag_stride (s i j : Nat) (hi : i < s) (hj : j < s) :
+    (i * s + j) % (s + 1) = 0 ↔ i = j := by
+  by_cases h : i ≤ j
+  · have e : i * s + j = (s + 1) * i + (j - i) := by
+      rw [Nat.mul_comm (s+1) i, Nat.mul_succ]; omega
+    rw [e, Nat.mul_add_mod, Nat.mod_eq_of_lt (by omega)]
+    omega
+  · have hi1 : 1 ≤ i := by omega
+    obtain ⟨i', rfl⟩ : ∃ i', i = i' + 1 := ⟨i - 1, by omega⟩
+    have e : (i' + 1) * s + j = (s + 1) * i' + (s + 1 - (i' + 1 - j)) := by
+      rw [Nat.mul_comm (s+1) i', Nat.mul_succ, Nat.add_mul]; omega
+    rw [e, Nat.mul_add_mod, Nat.mod_eq_of_lt (by omega)]
+    omega
+
+
+theorem leV_trans (a b c : V) (h1 : leV a b = true) (h2 : leV b c = true) : leV a c = true := by
+  cases a <;> cases b <;> cases c <;> simp_all [leV] <;> grind
+
+theorem leV_total (a b : V) : (leV a b || leV b a) = true := by
+  cases a <;> cases b <;> simp [leV] <;> grind
+
+theorem ltV_false_of_leV (t d : V) (h : leV t d = true) : ltV d t = false := by
+  cases t <;> cases d <;> simp_all [leV, ltV] <;> grind
+
+theorem ltV_of_leV_ltV (a b t : V) (h1 : leV a b = true) (h2 : ltV b t = true) :
+    ltV a t = true := by
+  cases a <;> cases b <;> cases t <;> simp_all [leV, ltV] <;> grind
+
+theorem ltV_irrefl (t : V) : ltV t t = false := by
+  cases t <;> simp [ltV]
+
+theorem sortV_pairwise (l : List V) : (sortV l).Pairwise (fun a b => leV a b = true) :=
+  List.pairwise_mergeSort leV_trans leV_total l
+
+theorem sortV_perm (l : List V) : (sortV l).Perm l := List.mergeSort_perm l leV
+
+theorem countP_eq_of_length {α : Type} (l : List α) (n : Nat) (p : α → Bool) (h : l.length = n) :
+    l.countP p = n ↔ ∀ a, a ∈ l → p a = true := by
+  subst h; exact List.countP_eq_length
+
+/-- in a sorted list nothing from position `k` on is strictly below `s[k]` -/
+theorem countP_lt_drop (s : List V) (k : Nat) (t : V)
+    (hs : s.Pairwise (fun a b => leV a b = true)) (hk : s[k]? = some t) :
+    (s.drop k).countP (fun d => ltV d t) = 0 := by
+  rw [List.countP_eq_zero]
+  intro d hd
+  have hk' : k < s.length := by
+    rcases Nat.lt_or_ge k s.length with h | h
+    · exact h
+    · simp [List.getElem?_eq_none h] at hk
+  have hdrop : s.drop k = t :: s.drop (k + 1) := by
+    rw [List.getElem?_eq_getElem hk'] at hk
+    injection hk with hk
+    rw [← hk]; exact List.drop_eq_getElem_cons hk'
+  rw [hdrop] at hd
+  have hp : (t :: s.drop (k + 1)).Pairwise (fun a b => leV a b = true) := by
+    rw [← hdrop]; exact List.Pairwise.sublist (List.drop_sublist k s) hs
+  rcases List.mem_cons.mp hd with rfl | hmem
+  · simp [ltV_irrefl]
+  · have := (List.pairwise_cons.mp hp).1 d hmem
+    simp [ltV_false_of_leV t d this]
+
+theorem countP_lt_eq_take (s : List V) (k : Nat) (t : V)
+    (hs : s.Pairwise (fun a b => leV a b = true)) (hk : s[k]? = some t) :
+    s.countP (fun d => ltV d t) = (s.take k).countP (fun d => ltV d t) := by
+  conv => lhs; rw [← List.take_append_drop k s]
+  rw [List.countP_append, countP_lt_drop s k t hs hk]; simp
+
+/-- **at most `k` elements are strictly below the `k`-th smallest** -/
+theorem countP_lt_sorted_le (s : List V) (k : Nat) (t : V)
+    (hs : s.Pairwise (fun a b => leV a b = true)) (hk : s[k]? = some t) :
+    s.countP (fun d => ltV d t) ≤ k := by
+  rw [countP_lt_eq_take s k t hs hk]
+  exact Nat.le_trans List.countP_le_length (by simp; omega)
+
+/-- **exactly `k` iff there is no tie at the cut** (`s[k-1] < s[k]`) -/
+theorem countP_lt_sorted_eq (s : List V) (k : Nat) (t p : V)
+    (hs : s.Pairwise (fun a b => leV a b = true)) (hk : s[k + 1]? = some t)
+    (hp : s[k]? = some p) :
+    s.countP (fun d => ltV d t) = k + 1 ↔ ltV p t = true := by
+  rw [countP_lt_eq_take s (k + 1) t hs hk]
+  have hk' : k + 1 < s.length := by
+    rcases Nat.lt_or_ge (k + 1) s.length with h | h
+    · exact h
+    · simp [List.getElem?_eq_none h] at hk
+  have hlen : (s.take (k + 1)).length = k + 1 := by simp; omega
+  constructor
+  · intro h
+    rw [countP_eq_of_length _ _ _ hlen] at h
+    apply h
+    rw [List.mem_take_iff_getElem]
+    exact ⟨k, by omega, by rw [List.getElem?_eq_getElem (by omega)] at hp; injection hp⟩
+  · intro h
+    rw [countP_eq_of_length _ _ _ hlen]
+    intro a ha
+    rw [List.mem_take_iff_getElem] at ha
+    obtain ⟨i, hi, rfl⟩ := ha
+    have hi' : i < k + 1 := by omega
+    rcases Nat.lt_or_ge i k with hlt | hge
+    · have hpk : s[k]'(by omega) = p := by
+        rw [List.getElem?_eq_getElem (by omega)] at hp; injection hp
+      have := List.pairwise_iff_getElem.mp hs i k (by omega) (by omega) hlt
+      rw [hpk] at this
+      exact ltV_of_leV_ltV _ _ _ this h
+    · have : i = k := by omega
+      subst this
+      rw [List.getElem?_eq_getElem (by omega)] at hp; injection hp with hp
+      rw [hp]; exact h
+
+/-- at least `k+1` elements are `≤ s[k]`: the realised count misses `k` only by ties -/
+theorem countP_le_sorted_ge (s : List V) (k : Nat) (t : V)
+    (hs : s.Pairwise (fun a b => leV a b = true)) (hk : s[k]? = some t) :
+    k + 1 ≤ s.countP (fun d => leV d t) := by
+  have hk' : k < s.length := by
+    rcases Nat.lt_or_ge k s.length with h | h
+    · exact h
+    · simp [List.getElem?_eq_none h] at hk
+  have hlen : (s.take (k + 1)).length = k + 1 := by simp; omega
+  have h1 : (s.take (k + 1)).countP (fun d => leV d t) = k + 1 := by
+    rw [countP_eq_of_length _ _ _ hlen]
+    intro a ha
+    rw [List.mem_take_iff_getElem] at ha
+    obtain ⟨i, hi, rfl⟩ := ha
+    have htk : s[k]'hk' = t := by
+      rw [List.getElem?_eq_getElem hk'] at hk; injection hk
+    rcases Nat.lt_or_ge i k with hlt | hge
+    · have := List.pairwise_iff_getElem.mp hs i k (by omega) hk' hlt
+      rw [htk] at this; exact this
+    · have : i = k := by omega
+      subst this
+      rw [htk]
+      have := leV_total t t
+      simpa using this
+  calc k + 1 = (s.take (k + 1)).countP (fun d => leV d t) := h1.symm
+    _ ≤ s.countP (fun d => leV d t) :=
+      List.Sublist.countP_le (List.take_sublist _ _)
+
 end Pyunicorn.Recurrence
